@@ -21,11 +21,17 @@ if __name__ == '__main__':
         keys = sorted(job['grid'])
         for vals in itertools.product(*[job['grid'][k] for k in keys]):
             sizes = dict(zip(keys, vals))
-            r = rtc.run_one(job['fn'], job['cfg'], sizes, seed + n)
-            n += 1
-            if r['ok'] is False:
-                fails.append({'fn': job['fn'], 'cfg': job['cfg'], 'sizes': sizes, 'detail': r['detail']})
-            elif r['ok'] is None:
-                errors.append({'fn': job['fn'], 'cfg': job['cfg'], 'sizes': sizes, 'detail': r['detail']})
+            cfgs = [job['cfg']]
+            if job['fn'] in rtc.LINEAR_FNS and 'amp' not in job['cfg']:
+                # the linear transforms are exact at every amplitude and on inputs with exactly-zero regions: one extra
+                # evaluation per grid point with a rotating amplitude pattern (tiny 1e-9 / huge 1e7 / sparse)
+                cfgs.append(dict(job['cfg'], amp=('tiny', 'huge', 'sparse')[n % 3]))
+            for cfg in cfgs:
+                r = rtc.run_one(job['fn'], cfg, sizes, seed + n)
+                n += 1
+                if r['ok'] is False:
+                    fails.append({'fn': job['fn'], 'cfg': cfg, 'sizes': sizes, 'detail': r['detail']})
+                elif r['ok'] is None:
+                    errors.append({'fn': job['fn'], 'cfg': cfg, 'sizes': sizes, 'detail': r['detail']})
     print(json.dumps({'evaluations': n, 'failures': fails[:50], 'n_failures': len(fails), 'errors': errors[:5],
                       'n_errors': len(errors)}))
